@@ -26,6 +26,10 @@
 #include <string>
 #include <vector>
 #include <memory>
+#include <sys/syscall.h>
+#include <sys/time.h>
+#include <time.h>
+#include <unistd.h>
 
 #include <QtCore>
 
@@ -147,6 +151,41 @@ QVariant parseValue(Tok &k)
 const QtMsgType kTypes[5] = { QtDebugMsg, QtInfoMsg, QtWarningMsg, QtCriticalMsg, QtFatalMsg };
 
 // Owns the byte buffers a QMessageLogContext points into.
+// Virtual wall clock: real time plus an offset that jumps forward by VERIF_LAG_MS right after every message has been built, i.e.
+// between the moment a message is logged and the moment it is formatted (what an asynchronous logger or a slow sink does).
+long long g_clockOffsetNs = 0;
+long long g_lagMs = 0;
+
+extern "C" {
+int gettimeofday(struct timeval *tv, void *tz) noexcept
+{
+    int r = int(syscall(SYS_gettimeofday, tv, tz));
+    if (r == 0 && tv && g_clockOffsetNs) {
+        long long us = (long long)tv->tv_sec * 1000000LL + tv->tv_usec + g_clockOffsetNs / 1000;
+        tv->tv_sec = us / 1000000LL;
+        tv->tv_usec = us % 1000000LL;
+    }
+    return r;
+}
+int clock_gettime(clockid_t id, struct timespec *ts) noexcept
+{
+    int r = int(syscall(SYS_clock_gettime, id, ts));
+    if (r == 0 && id == CLOCK_REALTIME && g_clockOffsetNs) {
+        long long ns = (long long)ts->tv_sec * 1000000000LL + ts->tv_nsec + g_clockOffsetNs;
+        ts->tv_sec = ns / 1000000000LL;
+        ts->tv_nsec = ns % 1000000000LL;
+    }
+    return r;
+}
+time_t time(time_t *out) noexcept
+{
+    struct timeval tv;
+    gettimeofday(&tv, nullptr);
+    if (out) *out = tv.tv_sec;
+    return tv.tv_sec;
+}
+}
+
 struct MsgSpec
 {
     QtMsgType type;
@@ -195,6 +234,7 @@ struct MsgSpec
                                catNull ? nullptr : cat.constData());
         LogMessage m(type, ctx, textNull ? QString() : text);
         for (const auto &p : attrList) m.setAttribute(p.first, p.second);
+        g_clockOffsetNs += g_lagMs * 1000000LL;
         return m;
     }
 };
@@ -255,6 +295,11 @@ void run_sorted(Tok &k, const std::string &id)
     int n = int(k.num());
     SortedPipeline sp;
     std::vector<int> log;
+    AttrHandlerPtr lastA;
+    FilterPtr lastF;
+    FormatterPtr lastM;
+    SinkPtr lastS;
+    PipelinePtr lastP;
     QHash<Handler *, int> ident;
     int nextId = 1;
     std::ostringstream out;
@@ -266,23 +311,38 @@ void run_sorted(Tok &k, const std::string &id)
             auto h = QSharedPointer<RecAttr>::create(hid, &log);
             ident.insert(h.data(), hid);
             sp.appendAttrHandler(h);
+            lastA = h;
         } else if (op == "aF") {
             auto h = QSharedPointer<RecFilter>::create(hid, &log);
             ident.insert(h.data(), hid);
             sp.appendFilter(h);
+            lastF = h;
         } else if (op == "sM") {
             auto h = QSharedPointer<RecFormatter>::create(hid, &log);
             ident.insert(h.data(), hid);
             sp.setFormatter(h);
+            lastM = h;
         } else if (op == "aS") {
             auto h = QSharedPointer<RecSink>::create(hid, &log);
             ident.insert(h.data(), hid);
             sp.appendSink(h);
+            lastS = h;
         } else if (op == "aP") {
             auto p = PipelinePtr::create();
             p->append(QSharedPointer<RecSink>::create(hid, &log));
             ident.insert(p.data(), hid);
             sp.appendPipeline(p);
+            lastP = p;
+        } else if (op == "rA") { // the same instance once more (shared handlers are ordinary use)
+            if (lastA) sp.appendAttrHandler(lastA);
+        } else if (op == "rF") {
+            if (lastF) sp.appendFilter(lastF);
+        } else if (op == "rM") {
+            if (lastM) sp.setFormatter(lastM);
+        } else if (op == "rS") {
+            if (lastS) sp.appendSink(lastS);
+        } else if (op == "rP") {
+            if (lastP) sp.appendPipeline(lastP);
         } else if (op == "nA") {
             sp.appendAttrHandler(AttrHandlerPtr());
         } else if (op == "nF") {
@@ -819,6 +879,7 @@ int main(int argc, char **argv)
         return 3;
     }
     if (getenv("VERIF_FLUSH")) std::cout << std::unitbuf;
+    if (const char *lag = getenv("VERIF_LAG_MS")) g_lagMs = atoll(lag);
     std::string line;
     while (std::getline(in, line)) {
         if (line.empty() || line[0] == '#') continue;
